@@ -1,7 +1,7 @@
 (* Entry points of the correspondence check: one function per harness command, from the parsed
    command to the answer string.  Evaluated by the extracted `modelrun` and by vm_compute. *)
 From H264 Require Import Base.Prelude Base.Bits Model.Show Model.BitReader Model.RefNal Model.Rbsp Model.Nal Model.AnnexB Model.Accum
-     Model.Parser Model.Sps Model.SpsDerived Model.ShowSps Model.Context Model.Pps Model.ShowPps Model.Slice Model.ShowSlice.
+     Model.Parser Model.Sps Model.SpsDerived Model.ShowSps Model.Context Model.Pps Model.ShowPps Model.Slice Model.ShowSlice Model.SeiTables Model.Sei Model.ShowSei Model.Avcc.
 Local Open Scope string_scope.
 
 Inductive source := SrcRaw (b : list byte) | SrcNal (c : bool) (chunks : list (list byte)).
@@ -283,3 +283,208 @@ Definition cmd_slice (items : list ctx_item) (s : source) : string :=
       end
     end
   end.
+
+(* ---- sei ---- *)
+Definition bsrc_of_br (r : br) : bsrc :=
+  match br_drain r with (bytes, t, _) => mk_bsrc bytes (tail_of_term t) end.
+Definition bytesrc_of_source (s : source) : bsrc :=
+  match s with
+  | SrcRaw b => mk_bsrc b TEof
+  | SrcNal _ _ => bsrc_of_br (br_new (rdr_of_source s) 1 128)
+  end.
+
+Definition cmd_sei (s : source) (extra : nat) : string :=
+  let src := bytesrc_of_source s in
+  join " " (map show_sei_result (sei_run (length (sbytes src) + extra + 3) extra 0 (sei_new src))).
+
+Definition cmd_bp (items : list ctx_item) (payload : list byte) : string :=
+  match buffering_period_read (build_ctx items) payload with
+  | OK v => "ok:" ++ show_bp v
+  | ERR e => "E:" ++ show_bperr e
+  | PANIC _ => "PANIC" | FUEL => "FUEL"
+  end.
+
+Definition cmd_pt (items : list ctx_item) (id : N) (payload : list byte) : string :=
+  match (if (31 <? id)%N then None else sps_by_id (build_ctx items) id) with
+  | None => "nosps"
+  | Some sp =>
+    match pic_timing_read sp payload with
+    | OK v => "ok:" ++ show_pt v
+    | ERR e => "E:" ++ show_pterr e
+    | PANIC _ => "PANIC" | FUEL => "FUEL"
+    end
+  end.
+
+Definition cmd_t35 (payload : list byte) : string := show_t35 (t35_read payload).
+
+(* ---- avcc ---- *)
+Definition show_avccerr (e : avccerr) : string :=
+  match e with
+  | NotEnoughData a b => "NotEnoughData{expected:" ++ show_nat a ++ ",actual:" ++ show_nat b ++ "}"
+  | UnsupportedConfigurationVersion v => "UnsupportedConfigurationVersion(" ++ show_N v ++ ")"
+  | AvParamSet d => "ParamSet(" ++ d ++ ")"
+  | AvSps e => "Sps(" ++ show_spserr e ++ ")"
+  | AvPps e => "Pps(" ++ show_ppserr e ++ ")"
+  end.
+
+Definition show_items (x : out avccerr (list item)) : string :=
+  match x with
+  | OK l => "[" ++ join "," (map (fun i => match i with ItOk b => hex b | ItErr d => "E:" ++ d end) l) ++ "]"
+  | _ => "[PANIC]"
+  end.
+
+(* create_context: the first error item / parse error aborts *)
+Fixpoint ctx_of_sps (l : list item) (c : context) : out avccerr context :=
+  match l with
+  | [] => OK c
+  | ItErr d :: _ => ERR (AvParamSet d)
+  | ItOk [] :: _ => PANIC "RefNal must be non-empty"
+  | ItOk nal :: r => match sps_from_bits (nal_bitsrc nal) with
+                     | OK s => ctx_of_sps r (put_seq_param_set c s)
+                     | ERR e => ERR (AvSps e) | PANIC w => PANIC w | FUEL => FUEL
+                     end
+  end.
+Fixpoint ctx_of_pps (l : list item) (c : context) : out avccerr context :=
+  match l with
+  | [] => OK c
+  | ItErr d :: _ => ERR (AvParamSet d)
+  | ItOk [] :: _ => PANIC "RefNal must be non-empty"
+  | ItOk nal :: r => match pps_from_bits c (nal_bitsrc nal) with
+                     | OK p => ctx_of_pps r (put_pic_param_set c p)
+                     | ERR e => ERR (AvPps e) | PANIC w => PANIC w | FUEL => FUEL
+                     end
+  end.
+Definition create_context (data : list byte) : out avccerr context :=
+  obind (sequence_parameter_sets data) (fun ss =>
+  obind (ctx_of_sps ss ctx_empty) (fun c =>
+  obind (picture_parameter_sets data) (fun ps => ctx_of_pps ps c))).
+
+Definition byte_at (data : list byte) (i : nat) : N := nth i data 0%N.
+
+Definition cmd_avcc (data : list byte) : string :=
+  match try_from data with
+  | ERR e => "E:" ++ show_avccerr e
+  | PANIC _ => "PANIC" | FUEL => "FUEL"
+  | OK _ =>
+    join " " [
+      "ok";
+      "ver=" ++ show_N (byte_at data 0);
+      "nsps=" ++ show_N (N.land (byte_at data 5) 31);
+      "prof=" ++ show_N (byte_at data 1);
+      "compat=" ++ show_N (byte_at data 2);
+      "level=" ++ show_level (byte_at data 2) (byte_at data 3);
+      "lsm1=" ++ show_N (N.land (byte_at data 4) 3);
+      "sps=" ++ show_items (sequence_parameter_sets data);
+      "pps=" ++ show_items (picture_parameter_sets data);
+      "ctx=" ++ match create_context data with
+                | OK c => "ok:" ++ show_ctx c
+                | ERR e => "E:" ++ show_avccerr e
+                | _ => "PANIC"
+                end ]
+  end.
+
+(* ---- ctx: puts and lookups through the public Context API ---- *)
+Inductive ctx_op := CoSps (nal : list byte) | CoPps (nal : list byte) | CoGetSps (id : N) | CoGetPps (id : N) | CoIter.
+
+Fixpoint run_ctx_ops (ops : list ctx_op) (c : context) : list string :=
+  match ops with
+  | [] => []
+  | o :: r =>
+    match o with
+    | CoSps nal => match sps_from_bits (nal_bitsrc nal) with
+                   | OK s => "put" :: run_ctx_ops r (put_seq_param_set c s)
+                   | ERR e => ("E:" ++ show_spserr e) :: run_ctx_ops r c
+                   | _ => ["PANIC"]
+                   end
+    | CoPps nal => match pps_from_bits c (nal_bitsrc nal) with
+                   | OK p => "put" :: run_ctx_ops r (put_pic_param_set c p)
+                   | ERR e => ("E:" ++ show_ppserr e) :: run_ctx_ops r c
+                   | _ => ["PANIC"]
+                   end
+    | CoGetSps id => (if (31 <? id)%N then "gs:badid" else "gs:" ++ show_option show_sps (sps_by_id c id)) :: run_ctx_ops r c
+    | CoGetPps id => (if (255 <? id)%N then "gp:badid" else "gp:" ++ show_option show_pps (pps_by_id c id)) :: run_ctx_ops r c
+    | CoIter => show_ctx c :: run_ctx_ops r c
+    end
+  end.
+Definition cmd_ctx (ops : list ctx_op) : string := join " " (run_ctx_ops ops ctx_empty).
+
+(* ---- pipeline: AnnexBReader::accumulate + a handler that parses every complete NAL against a running context ---- *)
+Definition variant_of (s : string) : string :=
+  (* text before the first "(" or "{" *)
+  let fix go (s : string) : string :=
+    match s with
+    | EmptyString => EmptyString
+    | String c r => if Ascii.eqb c (Ascii.ascii_of_nat 40) || Ascii.eqb c (Ascii.ascii_of_nat 123) then EmptyString else String c (go r)
+    end in go s.
+
+Definition parse_in_ctx (c : context) (i : invocation) : string * context :=
+  let chunks := inv_chunks i in
+  let src := SrcNal true chunks in
+  match inv_bytes i with
+  | [] => ("PANIC", c)
+  | b :: _ =>
+    match nal_header_new b with
+    | None => ("hdrerr", c)
+    | Some hdr =>
+      let t := nal_unit_type_id hdr in
+      if (t =? 7)%N then
+        match sps_from_bits (bitsrc_of_source src) with
+        | OK s => ("sps:ok:" ++ show_sps s, put_seq_param_set c s)
+        | ERR e => ("sps:E:" ++ show_spserr e, c)
+        | _ => ("PANIC", c)
+        end
+      else if (t =? 8)%N then
+        match pps_from_bits c (bitsrc_of_source src) with
+        | OK p => ("pps:ok:" ++ show_pps p, put_pic_param_set c p)
+        | ERR e => ("pps:E:" ++ show_ppserr e, c)
+        | _ => ("PANIC", c)
+        end
+      else if (t =? 6)%N then
+        let bs := bytesrc_of_source src in
+        let rs := sei_run (length (sbytes bs) + 3) 0 0 (sei_new bs) in
+        ("sei:" ++ join "," (map (fun x => match x with
+                                           | ERR e => "E:" ++ variant_of (show_biterr_dbg e)
+                                           | _ => show_sei_result x end) rs), c)
+      else if (t =? 1)%N || (t =? 5)%N then
+        match slice_header_read c hdr (bitsrc_of_source src) with
+        | OK ((h, sid, pid), _) => ("slice:ok:" ++ show_slice_header h ++ ";" ++ show_N sid ++ ";" ++ show_N pid, c)
+        | ERR e => ("slice:E:" ++ variant_of (show_sliceerr e), c)
+        | _ => ("PANIC", c)
+        end
+      else ("other:" ++ show_N t, c)
+    end
+  end.
+
+Record pstate := mk_ps { ps_a : astate; ps_acc : acc; ps_pol : list interest; ps_ctx : context }.
+
+Definition feed_invocations (st : pstate) (invs : list invocation) : pstate * list string :=
+  fold_left (fun '(st, out) i =>
+    let bytes := inv_bytes i in
+    let '(parsed, c') := if inv_complete i then parse_in_ctx (ps_ctx st) i else ("-", ps_ctx st) in
+    let shown := if inv_complete i then hex bytes
+                 else "#" ++ show_nat (length bytes) ++ "." ++ hex (skipn (length bytes - 4) bytes) in
+    let line := "N:" ++ shown ++ ";" ++ show_bit (inv_complete i) ++ ";" ++ parsed in
+    (mk_ps (ps_a st) (ps_acc st) (ps_pol st) c', (out ++ [line])%list)) invs (st, []).
+
+Definition feed_calls_p (st : pstate) (cs : list call) : pstate * list string :=
+  fold_left (fun '(st, out) c =>
+    let '(a', pol', invs) := nal_fragment (ps_acc st) (ps_pol st) (bufs c) (fin c) in
+    let st1 := mk_ps (ps_a st) a' pol' (ps_ctx st) in
+    let '(st2, o2) := feed_invocations st1 invs in
+    (st2, (out ++ o2)%list)) cs (st, []).
+
+Definition pipeline_op (st : pstate) (o : aop) : pstate * list string :=
+  let '(a', cs) := step (ps_a st) o in
+  feed_calls_p (mk_ps a' (ps_acc st) (ps_pol st) (ps_ctx st)) cs.
+
+Definition cmd_pipeline (avcc : option (list byte)) (ops : list aop) (pol : list interest) : string :=
+  let '(ctx0, pre) := match avcc with
+                      | None => (ctx_empty, [])
+                      | Some d => match try_from d with
+                                  | OK _ => match create_context d with OK c => (c, []) | _ => (ctx_empty, ["avccfail"]) end
+                                  | _ => (ctx_empty, ["avccfail"])
+                                  end
+                      end in
+  let '(st, out) := fold_left (fun '(st, out) o => let '(st', o') := pipeline_op st o in (st', (out ++ o')%list))
+                              (ops ++ [AReset])%list (mk_ps AStart acc_init pol ctx0, pre) in
+  join " " out.
